@@ -56,6 +56,10 @@ def gen_case(seed, overlong=0.0):
     if with_len and ncontigs > 1 and rnd2.random() < 0.35:
         for i in rnd2.sample(range(ncontigs), rnd2.randint(1, ncontigs - 1)):
             contigs[i] = (contigs[i][0], None)
+    if with_len and rnd2.random() < 0.2:
+        i0 = rnd2.randrange(ncontigs)
+        if contigs[i0][1] is not None:
+            contigs[i0] = (contigs[i0][0], 0)      # ##contig=<ID=..,length=0> is a declared length too
     used = sorted(rnd.sample(range(ncontigs), rnd.randint(1, ncontigs)))
     filters = ["PASS"] + ["f%d" % i for i in range(rnd.randint(0, 3))]
     pass_pos = rnd.randint(0, len(filters) - 1)   # header order may put PASS anywhere
@@ -131,7 +135,7 @@ def sval(t, v):
 def to_text(case):
     hdr = []
     for name, ln in case["contigs"]:
-        hdr.append("##contig=<ID=%s%s>" % (name, ",length=%d" % ln if ln else ""))
+        hdr.append("##contig=<ID=%s%s>" % (name, ",length=%d" % ln if ln is not None else ""))
     for f in case["hdr_filters"]:
         hdr.append('##FILTER=<ID=%s,Description="filter %s">' % (f, f))
     for k, n, t in case["infos"]:
